@@ -30,5 +30,7 @@ props! {
     "C08" => c08,
     "C09" => c09,
     "C10" => c10,
+    "C11" => c11,
+    "C12" => c12,
     "C20" => c20,
 }
